@@ -52,7 +52,8 @@ def _cli_job(job):
         for i, hs in enumerate(seeds):
             env = dict(ENV_A if i % 2 == 0 else ENV_B)
             env["PYTHONHASHSEED"] = str(hs)
-            cwd = os.path.join(work, "cwd%d" % i)
+            # (current directories at different depths, so that a path made relative to the cwd differs too)
+            cwd = os.path.join(work, "cwd%d" % i, *(["deeper", "x"][:i % 3]))
             os.makedirs(cwd)
             variants.append((env, cwd, None))
         if prepop:
@@ -334,6 +335,16 @@ def run(ctx):
         for b in xset:
             hs.append(([sub_of(a), sub_of(b)], False))
             hs.append(([sub_of(b), sub_of(a)], False))
+    # ... and every ordered pair of libraries that share generated helper code carrying the library prefix
+    # (array copy helpers: vectors, ownership; generated libraries with std::vector results / out arguments)
+    hset = [sub_of(n) for n in ("vectors", "ownership") if n in byname]
+    hset += [dict(s, entry="main") for s in subs if s.get("plain") and s["search"] == [] and "std::vector" in s["yaml"]][:3 if quick else 8]
+    for a in hset:
+        for b in hset:
+            if a is not b and a["name"] != b["name"]:
+                a2, b2 = dict(a), dict(b)
+                a2.pop("plain", None), b2.pop("plain", None), a2.pop("many_seeds", None), b2.pop("many_seeds", None)
+                hs.append(([a2, b2], False))
     hjobs = [(i, steps, patch) for i, (steps, patch) in enumerate(hs)]
     for out in core.pool_map(_hist_job, hjobs):
         _collect(ctx, out, "c")
